@@ -12,4 +12,16 @@ let dispatch fnum z nat entry (is : int list) (xs : Obj.t list) : Obj.t list res
   | "fse_angle", [] -> run_fse_angle fnum xs
   | "session", memo :: n :: nb :: codes ->
       run_session fnum (memo <> 0) (nat n) (nat nb) (List.map nat codes) xs
+  | "fse_session", memo :: nb :: codes ->
+      run_fse_session fnum (memo <> 0) (nat nb) (List.map nat codes) xs
+  | "smallest_angle", [] -> run_smallest_angle fnum xs
+  | "gen_scatter", [axis; n] -> run_gen_scatter fnum (z axis) (nat n) xs
+  | "gen_pgr", [axis; n] -> run_gen_pgr fnum (z axis) (nat n) xs
+  | "gen_coaxial", [a1; a2; n] -> run_gen_coaxial fnum (z a1) (z a2) (nat n) xs
+  | "gen_bingham", [axis; n] -> run_gen_bingham fnum (z axis) (nat n) xs
+  | "gen_default", [which] -> run_gen_default fnum (nat which) xs
+  | "gen_fse", [driver] -> run_gen_fse fnum (nat driver) xs
+  | "gen_lcg", [] -> run_gen_lcg fnum xs
+  | "gen_angle", [] -> run_gen_angle fnum xs
+  | "gen_fse_angle", [] -> run_gen_fse_angle fnum xs
   | _ -> Err OtherError
